@@ -8,7 +8,7 @@ Nothing is committed in /repo; do not run other checks against /repo meanwhile.
 """
 import fnmatch, glob, json, os, subprocess, sys, time
 
-ENV = dict(os.environ, GOFLAGS='-mod=mod', GOPROXY='off', GOSUMDB='off', GOTOOLCHAIN='local')
+ENV = dict(os.environ, GOFLAGS='-mod=mod', GOPROXY='off', GOSUMDB='off', GOTOOLCHAIN='local', VERIF_EVIDENCE_DIR='/tmp/verif-scratch-evidence')
 
 def run(cmd, cwd=None, timeout=3600):
     p = subprocess.run(cmd, cwd=cwd, env=ENV, capture_output=True, text=True, errors='replace', timeout=timeout)
